@@ -106,6 +106,12 @@ pub fn determine_constraints(
         }
     }
 
+    // The line break that ends an inline comment is never stripped (`single:inline`
+    // within a CTE, for example): what follows would become part of the comment.
+    if prev_block.is_some_and(|block| block.segment().is_type(SyntaxKind::InlineComment)) {
+        strip_newlines = false;
+    }
+
     (pre_constraint, post_constraint, strip_newlines)
 }
 
